@@ -115,14 +115,25 @@ func pkColumns(schema *sdb.Schema, ind *sdb.SchemaIndex) []int {
 		panic("can't call pkColumns on a rowid table")
 	}
 
-	var res []int
-	for _, c := range schema.PK {
-		if in := ind.Column(c.Column); in < 0 {
-			ind.Columns = append(ind.Columns, c)
-			res = append(res, len(ind.Columns)-1)
-		} else {
-			res = append(res, in)
+	// SQLite appends every PK column which isn't in the index yet with the
+	// same collation.
+	collate := func(c string) string {
+		if c == "" {
+			return sdb.DefaultCollate
 		}
+		return strings.ToLower(c)
+	}
+	var res []int
+pk:
+	for _, c := range schema.PK {
+		for in, ic := range ind.Columns {
+			if strings.EqualFold(ic.Column, c.Column) && collate(ic.Collate) == collate(c.Collate) {
+				res = append(res, in)
+				continue pk
+			}
+		}
+		ind.Columns = append(ind.Columns, c)
+		res = append(res, len(ind.Columns)-1)
 	}
 	return res
 }
